@@ -564,6 +564,95 @@ impl Rewriter {
         Some(parse_quote!( #f(#l, #r) ))
     }
 
+    // ---- R-windows: for w in X.windows_with_stride(n, s) { body } ------------------------------------
+    fn r_windows(&mut self, e: &Expr) -> Option<Expr> {
+        let Expr::ForLoop(fl) = e else { return None };
+        if fl.label.is_some() {
+            return None;
+        }
+        let Expr::MethodCall(mc) = strip_paren(&fl.expr) else { return None };
+        if mc.method != "windows_with_stride" || mc.args.len() != 2 || !is_place(&mc.receiver) {
+            return None;
+        }
+        let x = strip_paren(&mc.receiver).clone();
+        let (n, st) = (&mc.args[0], &mc.args[1]);
+        let w = pat_inner(&fl.pat).clone();
+        let idx = self.fresh("w");
+        let body = &fl.body.stmts;
+        Some(parse_quote!( for #idx in 0..vx_win_count(#x.len(), #n, #st) { let #w = nd_window(&#x, #idx * #st, #n); #(#body)* } ))
+    }
+
+    // ---- R-axisiter: X.axis_iter_mut(Axis(1)).into_iter().enumerate().for_each(|(j, mut col)| body) ------
+    /// column j of X is written through `col[i] = e` only: `nd_set2(&mut X, i, j, e)`
+    fn r_axisiter(&mut self, e: &Expr) -> Option<Expr> {
+        let Expr::MethodCall(fe) = e else { return None };
+        if fe.method != "for_each" || fe.args.len() != 1 {
+            return None;
+        }
+        let Expr::Closure(cl) = &fe.args[0] else { return None };
+        if cl.inputs.len() != 1 {
+            return None;
+        }
+        let Pat::Tuple(pt) = pat_inner(&cl.inputs[0]) else { return None };
+        if pt.elems.len() != 2 {
+            return None;
+        }
+        let Pat::Ident(jp) = pat_inner(&pt.elems[0]) else { return None };
+        let Pat::Ident(cp) = pat_inner(&pt.elems[1]) else { return None };
+        let (j, col) = (jp.ident.clone(), cp.ident.clone());
+        let Expr::MethodCall(en) = strip_paren(&fe.receiver) else { return None };
+        if en.method != "enumerate" || !en.args.is_empty() {
+            return None;
+        }
+        let Expr::MethodCall(ii) = strip_paren(&en.receiver) else { return None };
+        if ii.method != "into_iter" || !ii.args.is_empty() {
+            return None;
+        }
+        let Expr::MethodCall(ax) = strip_paren(&ii.receiver) else { return None };
+        if ax.method != "axis_iter_mut" || ax.args.len() != 1 || txt(&ax.args[0]).replace(' ', "") != "Axis(1)" || !is_place(&ax.receiver) {
+            return None;
+        }
+        let x = strip_paren(&ax.receiver).clone();
+        // rewrite `col[i] = e` and refuse any other use of `col`
+        struct ColRw { col: Ident, j: Ident, x: Expr, bad: bool }
+        impl VisitMut for ColRw {
+            fn visit_expr_mut(&mut self, e: &mut Expr) {
+                if let Expr::Assign(a) = e {
+                    if let Expr::Index(ix) = strip_paren(&a.left) {
+                        if let Expr::Path(p) = strip_paren(&ix.expr) {
+                            if p.path.is_ident(&self.col) {
+                                let i = (*ix.index).clone();
+                                let mut rhs2 = (*a.right).clone();
+                                self.visit_expr_mut(&mut rhs2);
+                                let (x, j) = (self.x.clone(), self.j.clone());
+                                *e = parse_quote!( nd_set2(&mut #x, #i, #j, #rhs2) );
+                                return;
+                            }
+                        }
+                    }
+                }
+                if let Expr::Path(p) = e {
+                    if p.path.is_ident(&self.col) {
+                        self.bad = true;
+                    }
+                }
+                visit_mut::visit_expr_mut(self, e);
+            }
+        }
+        let (mut stmts, tail) = closure_body_stmts(&cl.body);
+        if let Some(t) = tail {
+            stmts.push(Stmt::Expr(t, Some(Default::default())));
+        }
+        let mut rw = ColRw { col, j: j.clone(), x: x.clone(), bad: false };
+        for st in stmts.iter_mut() {
+            rw.visit_stmt_mut(st);
+        }
+        if rw.bad {
+            return None;
+        }
+        Some(parse_quote!( for #j in 0..#x.ncols() { #(#stmts)* } ))
+    }
+
     // ---- R-boolor: `a | b` on two parenthesised boolean expressions (non-short-circuit or) ----------
     fn r_boolor(&mut self, e: &Expr) -> Option<Expr> {
         let Expr::Binary(b) = e else { return None };
@@ -977,6 +1066,20 @@ impl VisitMut for Rewriter {
                 return;
             }
         }
+        if self.on("R-windows") {
+            if let Some(n) = self.r_windows(e) {
+                self.record("R-windows", line, e, &n);
+                *e = n;
+                return;
+            }
+        }
+        if self.on("R-axisiter") {
+            if let Some(n) = self.r_axisiter(e) {
+                self.record("R-axisiter", line, e, &n);
+                *e = n;
+                return;
+            }
+        }
         if self.on("R-boolor") {
             if let Some(n) = self.r_boolor(e) {
                 self.record("R-boolor", line, e, &n);
@@ -1088,6 +1191,8 @@ pub fn selftest() -> i32 {
         ("{ for _ in 0..n { v.push(r.random()); } }", &["R-wild"], "for __vx_i1 in 0 .. n { v . push (r . random ()) ; }", &["R-wild"]),
         ("{ (_, m, _, u) = lf(p); }", &["R-destruct"], "{ let (_ , __vx_t1 , _ , __vx_t2) = lf (p) ; m = __vx_t1 ; u = __vx_t2 ; }", &["R-destruct"]),
         ("{ if (now >= last + freq) | (i == total - 1) { f(); } }", &["R-boolor"], "if vx_bor ((now >= last + freq) , (i == total - 1)) { f () ; }", &["R-boolor"]),
+        ("{ for w in rho.windows_with_stride(2, 2) { f(w); } }", &["R-windows"], "for __vx_w1 in 0 .. vx_win_count (rho . len () , 2 , 2) { let w = nd_window (& rho , __vx_w1 * 2 , 2) ; f (w) ; }", &["R-windows"]),
+        ("{ out.axis_iter_mut(Axis(1)).into_par_iter().enumerate().for_each(|(c, mut oc)| { let d = g(c); oc[3] = d; }); }", &["R-par", "R-axisiter"], "for c in 0 .. out . ncols () { let d = g (c) ; nd_set2 (& mut out , 3 , c , d) ; }", &["R-par", "R-axisiter"]),
         // nothing enabled: nothing changes
         ("{ (0..n).for_each(|i| v[i] = 0.5); }", &[], "(0 .. n) . for_each (| i | v [i] = 0.5) ;", &[]),
     ];
